@@ -19,6 +19,6 @@ CONSTANTS
 INIT Init
 NEXT NextDyn
 CONSTRAINT ConstrDyn
-INVARIANTS TypeOK AssigneeEligible GateAll FeesAtElection CeilIsCeil
+INVARIANTS TypeOK AssigneeEligible MevIsPerChain GateAll FeesAtElection CeilIsCeil
 PROPERTIES RemoteAddressFromSnapshot NoEligibleNoEnqueue
 CHECK_DEADLOCK FALSE
